@@ -510,6 +510,8 @@ class Doist(tyming.Tymist):
                 udoers.append(doer)
         for doer in udoers:  # one at a time so when an enter raises the doers
             # entered so far are in .doers and .deeds and get closed by .exit
+            if doer in self.doers:  # extended meanwhile by the enter of an earlier one
+                continue
             deeds = self.enter(doers=[doer])  # provide fresh deeds for new doer
             self.doers.append(doer)
             self.deeds.extend(deeds)
@@ -1399,6 +1401,8 @@ class DoDoer(Doer):
                 udoers.append(doer)
         for doer in udoers:  # one at a time so when an enter raises the doers
             # entered so far are in .doers and .deeds and get closed by .exit
+            if doer in self.doers:  # extended meanwhile by the enter of an earlier one
+                continue
             deeds = self.enter(doers=[doer])  # provide fresh deeds for new doer
             self.doers.append(doer)
             self.deeds.extend(deeds)
